@@ -15,7 +15,7 @@ import z3
 from z3 import z3util
 
 from .values import *
-from .ctx import Ctx, PyRaise, Unsupported, Infeasible, PathLimit, explore, Obligation
+from .ctx import Ctx, PyRaise, Unsupported, Infeasible, PathLimit, explore, Obligation, UnsupportedPath
 from .interp import Interp, Registry, func_ast, CutPath, source_file_of
 from .models import install_default_models, BoundedCut
 from . import ops, api
@@ -356,7 +356,23 @@ def verify_contract(c, reg, timeout_ms=QUICK_TIMEOUT_MS, max_paths=4000, want_sm
         out['opaque_specs'] = sorted(set(out['opaque_specs']) | ip.opaque_used)
 
     try:
-        results = explore(run_path, max_paths=max_paths, time_limit=time_limit)
+        results = explore(run_path, max_paths=max_paths, time_limit=time_limit, keep_unsupported=True)
+        unsup = [(cx, o) for cx, o in results if isinstance(o, UnsupportedPath)]
+        if unsup:
+            # Paths the executor cannot follow make the contract undecided.  The inputs that reach them are still inputs of the
+            # real function: take a model of each such path condition and evaluate the contract natively on it, so that a change
+            # that sends inputs into unmodelled code is reported with a concrete failing input instead of only "undecided".
+            out['status'] = 'out-of-reach'
+            out['error'] = unsup[0][1].detail
+            out['unsupported_paths'] = len(unsup)
+            probes = _probe_unsupported(c, unsup[:12])
+            out['unsupported_probes'] = probes['runs']
+            if probes['failed']:
+                out['obligations'] = [{'name': '%s#post' % c.key, 'kind': 'post', 'paths': len(probes['failed']), 'discharged': 0,
+                                       'failed': probes['failed'], 'unknown': 0, 'secs': 0.0, 'solvers': {'native': len(probes['failed'])}, 'known': {}}]
+            out['paths'] = len(results)
+            out['wall_s'] = time.time() - t0
+            return out
     except Unsupported as e:
         out['status'] = 'out-of-reach'
         out['error'] = str(e)
@@ -414,6 +430,35 @@ def verify_contract(c, reg, timeout_ms=QUICK_TIMEOUT_MS, max_paths=4000, want_sm
     out['obligations'] = list(agg.values())
     out['wall_s'] = time.time() - t0
     return out
+
+
+def _probe_unsupported(c, unsup):
+    """native contract evaluation on one model of each unsupported path's condition"""
+    runs, failed = 0, []
+    if c.pins or c.raise_pins or c.native_skip:
+        return {'runs': 0, 'failed': []}
+    for cx, o in unsup:
+        try:
+            s = z3.Solver()
+            s.set('timeout', 5000)
+            for p in cx.pc:
+                s.add(p)
+            if s.check() != z3.sat:
+                continue
+            m = s.model()
+            conc = {k: concretize_value(m, v) for k, v in cx.param_env.items()}
+            rep = replay_native(c, conc)
+            runs += 1
+            if rep.get('confirmed'):
+                cex = {'obligation': '%s#post' % c.key, 'input': {k: _jsonable(v) for k, v in conc.items()},
+                       'note': 'input taken from the path condition of a path the symbolic executor could not follow (%s); '
+                               'the contract fails on it natively' % o.detail}
+                cex.update(rep)
+                if len(failed) < 3:
+                    failed.append(cex)
+        except Exception:
+            continue
+    return {'runs': runs, 'failed': failed}
 
 
 def _const_names(t):
